@@ -1,7 +1,7 @@
 (* C12 — Compiler emulation: aliases, implicit options, modes and passes.
    Statements only; proofs are in Proofs/C12*.v. *)
 From Coq Require Import Bool Ascii String List.
-From CBI Require Import Lib.Data Lib.Res Model.C12 Spec.C12 Proofs.C12 Proofs.C12f Proofs.C12g Gen.C12_tables.
+From CBI Require Import Lib.Data Lib.Res Model.C12 Spec.C12 Proofs.C12 Proofs.C12f Proofs.C12g Proofs.C12h Gen.C12_tables.
 Import ListNotations.
 Local Open Scope string_scope.
 Local Open Scope list_scope.
@@ -134,8 +134,9 @@ Print Assumptions C12_builtins_append_only.
    (a table with no key) makes the whole file be ignored; otherwise names the user
    does not mention are untouched; a new name gets the user's definition; an alias
    definition replaces the old one; any other definition keeps the old implicit
-   options and parser rules and APPENDS the user's, replaces modes and passes of the
-   same name, adds the others, and clears an alias. *)
+   options and APPENDS the user's, adds the user's parser rules one by one with add_rule
+   (a redefined flag takes the new rule, C12_redefined_flag_wins), replaces modes and
+   passes of the same name, adds the others, and clears an alias. *)
 Theorem C12_user_extends :
   forall t user, NoDup (map fst user) ->
     (forallb (fun nd => udef_valid (snd nd)) user = false -> merge_user t user = t) /\
@@ -191,24 +192,51 @@ Definition default_blocks (r : err + (list config * list string)) : list (list s
   end.
 Definition pass_defs (r : err + (list config * list string)) : list (string * list string) :=
   match r with inr (gs, _) => map (fun g => (g_pass g, g_defs g)) gs | inl _ => [] end.
-(* Known finding redefined-flag-crashes: the documentation's own example definition of gcc
-   (docs/source/emulating-compiler-behavior.rst), placed in .cbi/config, repeats the built-in
-   flag -fopenmp; S gives the later definition to the flag, the code raises ArgumentError
-   for every gcc / g++ command *)
+(* A parser flag redefined in the user's file takes the NEW definition (repaired defect
+   redefined-flag-crashes).  For EVERY list of rules and EVERY new rule: the redefined
+   spellings are served by the new rule as a whole - action, destination, default passes;
+   every other spelling keeps its old rule, which merely lost the redefined spellings;
+   nothing else is in the list (a rule with no spelling left is gone, with its default
+   passes); and if argparse accepted the old rules and the user's rules stay clear of the
+   generic options, argparse accepts the merged rules - "conflicting option string" can
+   no longer come from a redefinition. *)
+Theorem C12_redefined_flag_wins :
+  (forall rs r f, smem f (r_flags r) = true -> find_opt (add_rule rs r) f = Some r) /\
+  (forall rs r f, smem f (r_flags r) = false ->
+     find_opt (add_rule rs r) f = option_map (restrict (r_flags r)) (find_opt rs f)) /\
+  (forall rs r r', In r' (add_rule rs r) <->
+     r' = r \/ exists r0, In r0 rs /\ r' = restrict (r_flags r) r0 /\ r_flags r' <> []) /\
+  (forall old user,
+     conflict [] (generic_rules ++ old) = false ->
+     (forall r f, In r user -> In f (r_flags r) -> ~ In f (all_flags generic_rules)) ->
+     conflict [] (generic_rules ++ fold_left add_rule user old) = false).
+Proof.
+  split; [exact add_rule_new|]. split; [exact add_rule_old|]. split; [exact add_rule_In|exact merged_rules_accepted].
+Qed.
+Print Assumptions C12_redefined_flag_wins.
+
+(* The documentation's own example definition of gcc (docs/source/emulating-compiler-behavior.rst),
+   placed in .cbi/config, repeats the built-in flag -fopenmp.  With the merge as it is now every
+   gcc / g++ command works and -fopenmp still defines _OPENMP; with the merge BEFORE the repair
+   (the user's rules appended next to the built-in ones) every such command raised ArgumentError. *)
 Definition doc_example_user : list (string * udef) :=
   [("gcc", UComp None
       (Some [{| r_flags := ["-fopenmp"]; r_act := AAppendConst "openmp"; r_dest := DModes; r_default := None |}])
       (Some [{| m_name := "openmp"; m_defs := ["_OPENMP"]; m_paths := []; m_files := [] |}]) None);
    ("g++", UAlias "gcc")].
-Theorem C12_redefined_flag_refuted :
+Definition appended_legacy (c : compiler) (rs : list rule) : compiler :=
+  {| c_alias := c_alias c; c_opts := c_opts c; c_rules := c_rules c ++ rs; c_modes := c_modes c; c_passes := c_passes c |}.
+Theorem C12_redefined_flag_legacy_refuted :
   let t := merge_user builtin_table doc_example_user in
   let c := compiler_of t (resolve t "g++") in
-  rules_conflict c = true /\
-  parse_args false c ["-fopenmp"; "-DX"] = inl EArgument /\
-  option_map (fun r => pass_defs (inr r)) (spec_parse_cmd c ["-fopenmp"; "-DX"]) = Some [("default", ["X"])] /\
-  option_map (fun r => default_blocks (inr r)) (spec_parse_cmd c ["-fopenmp"; "-DX"]) = Some [["_OPENMP"]].
+  let r := parse_args false c ["-fopenmp"; "-DX"] in
+  pass_defs r = [("default", ["X"])] /\ default_blocks r = [["_OPENMP"]] /\
+  spec_parse c ["-fopenmp"; "-DX"] = match r with inr x => Some x | inl _ => None end /\
+  parse_args false (appended_legacy (compiler_of builtin_table (resolve builtin_table "g++"))
+                      [{| r_flags := ["-fopenmp"]; r_act := AAppendConst "openmp"; r_dest := DModes; r_default := None |}])
+             ["-fopenmp"; "-DX"] = inl EArgument.
 Proof. vm_compute. repeat split; reflexivity. Qed.
-Print Assumptions C12_redefined_flag_refuted.
+Print Assumptions C12_redefined_flag_legacy_refuted.
 
 (* Facts about the four built-in definition files AS THEY ARE NOW (Gen/C12_tables.v is
    regenerated from the TOML files on every run) *)
